@@ -83,7 +83,7 @@ Fixpoint closure (fuel : nat) (seen frontier : list gst) : list gst :=
     end
   end.
 
-Definition FUEL : nat := 6000.
+Definition FUEL : nat := Nat.mul 60 100.   (* 6000, written so that no large-literal warning is printed *)
 
 Fixpoint dedup (l : list gst) : list gst :=
   match l with
